@@ -286,7 +286,14 @@ def main(argv):
             else:  # fixed: must pass now
                 if still:
                     ctx.violation("regression of fixed finding %s: %s" % (fid, f["what"]), {"finding": fid, "witness": f.get("witness")})
-        prop.run(ctx)
+        try:
+            prop.run(ctx)
+        except subprocess.TimeoutExpired as e:
+            # the Lean model (its tables are regenerated from the source) did not answer in time: the
+            # correspondence is broken, not the property - search the implementation alone for a failing input
+            ctx.broken_obligation("model-driver-timeout", str(e)[:300])
+            ctx.model_available = False
+            prop.run(ctx)
     except common.ModelError as e:
         print("TOOL-FAILURE: %s" % e)
         return 2
